@@ -339,18 +339,18 @@ class GeckoSimulator(GeckoCmd):
     def _on_status_block(self, handler: GeckoStatusBlockProtocolHandler, sender):
         if self._should_ignore(handler, sender):
             return
-        for idx, start in enumerate(
-            range(
-                handler.start,
-                handler.start + handler.length,
-                self._STATUS_BLOCK_SEGMENT_SIZE,
-            )
-        ):
+        starts = range(
+            handler.start,
+            handler.start + handler.length,
+            self._STATUS_BLOCK_SEGMENT_SIZE,
+        )
+        for idx, start in enumerate(starts):
             length = min(
                 self._STATUS_BLOCK_SEGMENT_SIZE,
                 len(self.structure.status_block) - start,
             )
-            next = (idx + 1) % ((handler.length // self._STATUS_BLOCK_SEGMENT_SIZE) + 1)
+            # The last segment of the chain always points back to zero
+            next = (idx + 1) % len(starts)
             if self._should_ignore(handler, sender, False):
                 continue
             self._socket.queue_send(
